@@ -15,12 +15,21 @@ import (
 // (the same wire bytes the second time).
 func runCryptoLaws(c *fw.Ctx) {
 	n := c.Pick(400, 20000)
-	ad := ov.AuthDigestDefault
 	for i := 0; i < n; i++ {
 		if !c.Mine(i) {
 			continue
 		}
 		r := caseRand(c.Seed, "openvpn-crypto", i)
+		// the digest handed to Sign / EncryptAndSign / DecryptAndAuthenticate: the format's own (SHA-256, the HMAC field of
+		// a wrapped key is 32 bytes wide), none, or any other supported one - whichever the caller names, what is written
+		// has to be the wire form of the key
+		ad := ov.AuthDigestDefault
+		switch r.Intn(4) {
+		case 0:
+			ad = ov.AuthDigests[r.Intn(len(ov.AuthDigests))]
+		case 1:
+			ad = nil
+		}
 		// (a tls-crypt-v2 server key has no direction: both sides use the same quarters of it)
 		server := &ov.StaticKey{KeyBytes: randBytes(r, 256), Bidi: true}
 		ck := randBytes(r, 256)
@@ -33,15 +42,19 @@ func runCryptoLaws(c *fw.Ctx) {
 			wk := &ov.WrappedKey{}
 			wk.StaticKey.KeyBytes = append([]byte(nil), ck...)
 			wk.MetaData.Payload, wk.MetaData.Type = append([]byte(nil), meta...), mtype
-			wk.MessageTraitAuth.Digest = ad
-			wk.MessageTraitAuth.HMAC = make([]byte, ad.Size)
+			wk.MessageTraitAuth.Digest = ov.AuthDigestDefault
+			wk.MessageTraitAuth.HMAC = make([]byte, ov.AuthDigestDefault.Size)
 			wk.MessageTraitCrypt.Cipher = ov.CryptCipherDefault
 			return wk
 		}
-		class := fmt.Sprintf("meta%d", len(meta))
+		adName := "none"
+		if ad != nil {
+			adName = ad.Names[0]
+		}
+		class := fmt.Sprintf("meta%d/%s", len(meta), adName)
 		report := func(kind, what string) {
 			c.Violation("C18 openvpn.WrappedKey crypto round trip: "+kind+" ["+map[bool]string{true: "with metadata", false: "without metadata"}[len(meta) > 0]+"]", what,
-				map[string]any{"index": i, "meta_len": len(meta), "bidi": server.Bidi, "inverse": server.Inverse})
+				map[string]any{"index": i, "meta_len": len(meta), "digest_argument": adName, "bidi": server.Bidi, "inverse": server.Inverse})
 		}
 		wk := build()
 		var wire1, wire2 []byte
@@ -59,10 +72,15 @@ func runCryptoLaws(c *fw.Ctx) {
 				wire2 = append([]byte(nil), wk.ToBytes()...)
 			}
 			back = &ov.WrappedKey{}
-			back.MessageTraitAuth.Digest = ad
+			back.MessageTraitAuth.Digest = ov.AuthDigestDefault
 			back.MessageTraitCrypt.Cipher = ov.CryptCipherDefault
 			if back.FromBytes(wire1) == nil {
-				ok = back.DecryptAndAuthenticate(ad, server)
+				// (the reader names the format's digest or none: a reader that insists on another digest rejects, rightly)
+				rd := ov.AuthDigestDefault
+				if i%2 == 1 {
+					rd = nil
+				}
+				ok = back.DecryptAndAuthenticate(rd, server)
 			}
 		})
 		c.Case(fw.Hash("crypto", class, server.Bidi, server.Inverse), true, func() any { return map[string]any{"index": i, "meta_len": len(meta)} })
